@@ -241,6 +241,24 @@ func judgeFwd(rep *lib.Report, ln fwdLine, haveModel bool) {
 			}
 		}
 	}
+	// '*' operands of a NAMED integer type (a column width type, a SafeInt, a time.Duration) are integers like any other
+	if len(stars) > 0 {
+		named := make([]interface{}, len(stars))
+		for i, v := range stars {
+			if n, ok := v.(int); ok {
+				named[i] = namedInt(n)
+			} else {
+				named[i] = v
+			}
+		}
+		var of, or obs
+		_ = fmt.Sprintf(f, append(append([]interface{}{}, named...), fProbe{&of})...)
+		redact.Sprintf(f, append(append([]interface{}{}, named...), fProbe{&or})...)
+		rep.AddEval(1)
+		if of.Calls == 1 && (or.Calls != 1 || or.W != of.W || or.P != of.P) {
+			rep.Violate("fwd:width-precision-observed", fmt.Sprintf("redact: directive %q with '*' operands of a named integer type gives the method width %d precision %d (calls %d); under fmt it is width %d precision %d", f, or.W, or.P, or.Calls, of.W, of.P), kase)
+		}
+	}
 	// the same directive applied to a container: an earlier element whose method panics (contained and
 	// reported) must not change what a later element observes
 	{
